@@ -106,7 +106,9 @@ pub fn text_faults(data: &[u8], peers: &[String]) -> Vec<Corruption> {
             out.push(Corruption { ops: vec![CorruptOp::Del { off, len }], off, kind: "del-block" });
         }
         // invalid UTF-8 lead byte, lone continuation byte, overlong, NUL, lone CR inserted
-        for bytes in [vec![0xC3u8], vec![0xA9], vec![0xE2, 0x82], vec![0xF0, 0x9F, 0x98], vec![0xC0, 0x80], vec![0x00], vec![b'\r'], vec![0xEF, 0xBB, 0xBF]] {
+        for bytes in [vec![0xC3u8], vec![0xA9], vec![0xE2, 0x82], vec![0xF0, 0x9F, 0x98], vec![0xC0, 0x80], vec![0x00], vec![b'\r'], vec![0xEF, 0xBB, 0xBF],
+            // valid multi-byte characters that Unicode counts as whitespace / line breaks
+            vec![0xE3, 0x80, 0x80], vec![0xC2, 0xA0], vec![0xE2, 0x80, 0xA8], vec![0xC2, 0x85], vec![0xE2, 0x80, 0x83]] {
             out.push(Corruption { ops: vec![CorruptOp::Ins { off, bytes }], off, kind: "insert" });
         }
     }
@@ -123,10 +125,31 @@ pub fn text_faults(data: &[u8], peers: &[String]) -> Vec<Corruption> {
 /// `header` bytes and every `far`-th fault elsewhere.  The union over `near*far`-many consecutive
 /// seeds is the complete space.
 pub fn select(all: &[Corruption], header: usize, near: usize, far: usize, seed: u64) -> Vec<Corruption> {
+    select_by(all, &|off| off < header, near, far, seed)
+}
+
+/// Offsets that belong to structure (headers, tables) rather than payload: the first `prefix` bytes
+/// plus a window around every occurrence of a 4-byte ASCII section tag such as `THTX`.
+pub fn structural_offsets(data: &[u8], prefix: usize) -> Vec<bool> {
+    let mut m = vec![false; data.len()];
+    for i in 0..data.len().min(prefix) {
+        m[i] = true;
+    }
+    for i in 0..data.len().saturating_sub(3) {
+        if &data[i..i + 4] == b"THTX" {
+            for j in i.saturating_sub(8)..(i + 24).min(data.len()) {
+                m[j] = true;
+            }
+        }
+    }
+    m
+}
+
+pub fn select_by(all: &[Corruption], is_header: &dyn Fn(usize) -> bool, near: usize, far: usize, seed: u64) -> Vec<Corruption> {
     let mut out = vec![];
     let (mut i_near, mut i_far) = (0usize, 0usize);
     for c in all {
-        if c.off < header {
+        if is_header(c.off) {
             if near <= 1 || i_near % near == (seed as usize) % near {
                 out.push(c.clone());
             }
